@@ -391,9 +391,12 @@ func runHandoff(c driver.Case) driver.Result {
 	for i := 0; i < k; i++ {
 		tokens <- struct{}{}
 	}
-	quiesce.Settle(2 * time.Second)
+	quiesce.Settle(5 * time.Second)
 	time.Sleep(2 * time.Millisecond)
-	quiesce.Settle(time.Second)
+	if _, ok := quiesce.Settle(15 * time.Second); !ok {
+		// producer / consumer goroutines still runnable on a loaded machine: the lead cannot be read yet
+		return driver.Result{Verdict: driver.Inconclusive, Key: "process-not-quiescent", Dirty: true}
+	}
 	ret, cons := getReturned(), consumed.Load()
 	total := int64(n + 1)
 	res.Extra = map[string]int64{"max_producer_lead": ret - cons}
